@@ -67,23 +67,23 @@ func cmdVC(args []string) {
 			rs = verifyAll(prog, expandKey(k))
 		}
 		for _, r := range rs {
-		results = append(results, r)
-		for _, e := range r.Errors {
-			fmt.Println("ERROR", e)
-		}
-		for _, d := range r.Drift {
-			fmt.Println("DRIFT", d)
-		}
-		for _, u := range r.Unmodelled {
-			fmt.Println("unmodelled:", u)
-		}
-		for _, u := range r.Assumptions {
-			fmt.Println("assumption:", u)
-		}
-		for _, u := range r.Stores {
-			fmt.Println("store:", u)
-		}
-		fmt.Printf("%s: %d obligations, %d facts, %d decls\n", r.Name, len(r.Obls), len(r.Facts), len(r.Decls))
+			results = append(results, r)
+			for _, e := range r.Errors {
+				fmt.Println("ERROR", e)
+			}
+			for _, d := range r.Drift {
+				fmt.Println("DRIFT", d)
+			}
+			for _, u := range r.Unmodelled {
+				fmt.Println("unmodelled:", u)
+			}
+			for _, u := range r.Assumptions {
+				fmt.Println("assumption:", u)
+			}
+			for _, u := range r.Stores {
+				fmt.Println("store:", u)
+			}
+			fmt.Printf("%s: %d obligations, %d facts, %d decls\n", r.Name, len(r.Obls), len(r.Facts), len(r.Decls))
 		}
 	}
 	work := "/verif/work/vc"
@@ -109,4 +109,3 @@ func cmdVC(args []string) {
 	}
 	fmt.Printf("total %.1fs\n", time.Since(t0).Seconds())
 }
-
